@@ -6,8 +6,10 @@
     [doc_hazard], [doc_survival] are the textbook / documented formulas written by hand in Formulas/Density.v. *)
 From Coq Require Import Reals List.
 From Coquelicot Require Import Coquelicot.
-From Leaspy Require Import Base.RAux Formulas.TorchDist Formulas.Density Formulas.LikelihoodCode Formulas.DensityProofs Formulas.DensityTie Formulas.DensityConst.
+From Leaspy Require Import Base.RAux Formulas.TorchDist Formulas.Density Formulas.LikelihoodCode Formulas.DensityProofs Formulas.DensityTie Formulas.DensityConst
+  Formulas.Ortho Formulas.DensityMulti Formulas.DensityMultiProofs Formulas.DensityMultiTie.
 From LeaspyGen Require Import GenC08.
+Import ListNotations.
 Local Open Scope R_scope.
 
 (** ** Gaussian (noise of continuous outcomes, priors of the latent variables) *)
@@ -292,3 +294,134 @@ Theorem C08_attach_gaussian : forall y model noise_std : R,
   gen_attach_gaussian y model noise_std = - ln (normal_pdf y model noise_std) + (c32 - ln (sqrt (2 * PI))).
 Proof. exact attach_gaussian. Qed.
 Print Assumptions C08_attach_gaussian.
+
+(** ** ANY number of sources and competing events (extension 3).
+    [gen_joint_srcs_event_entry event delta n_log_nu log_rho xi tau sources zeta i e]: entry (individual i, event e) of the event
+    attachment of a joint model whose [survival_shifts] node is [MatMul(sources, zeta)] (introspection, generated as
+    [Ortho.matmul]); the rest of the path is state["nll_attach_event_ind"] traced through the model's own graph.
+    [survival_shift sources zeta i e] = [dot (row i of sources) (column e of zeta)] = sum_s sources_{i,s} zeta_{s,e}. *)
+Theorem C08_survival_shift_is_sum : forall (sources zeta : matrix) (i e : nat),
+  survival_shift sources zeta i e = sum_products (nth i sources []) (map (fun r => nth e r 0) zeta).
+Proof. exact survival_shift_sum. Qed.
+Print Assumptions C08_survival_shift_is_sum.
+
+Theorem C08_joint_srcs_event : forall (event delta n_log_nu log_rho xi tau : R) (sources zeta : matrix) (i e : nat),
+  shift_shapes_ok sources zeta i e -> 0 < event - tau -> delta <> 0 ->
+  gen_joint_srcs_event_entry event delta n_log_nu log_rho xi tau sources zeta i e
+  = - ln (weibull_pdf (nu_tilde_src (exp (- n_log_nu)) (exp log_rho) xi (survival_shift sources zeta i e)) (exp log_rho) (event - tau)).
+Proof. exact joint_srcs_event. Qed.
+Print Assumptions C08_joint_srcs_event.
+
+Theorem C08_joint_srcs_censored : forall (event delta n_log_nu log_rho xi tau : R) (sources zeta : matrix) (i e : nat),
+  shift_shapes_ok sources zeta i e -> delta = 0 ->
+  gen_joint_srcs_event_entry event delta n_log_nu log_rho xi tau sources zeta i e
+  = - ln (weibull_survival (nu_tilde_src (exp (- n_log_nu)) (exp log_rho) xi (survival_shift sources zeta i e)) (exp log_rho) (event - tau)).
+Proof. exact joint_srcs_censored. Qed.
+Print Assumptions C08_joint_srcs_censored.
+
+(** an observed event at or before the reference time costs exactly the finite prohibitive penalty - never NaN, never infinity -
+    whatever the sources and their coefficients *)
+Theorem C08_joint_srcs_event_before_ref : forall (event delta n_log_nu log_rho xi tau : R) (sources zeta : matrix) (i e : nat),
+  shift_shapes_ok sources zeta i e -> event - tau <= 0 -> delta <> 0 ->
+  gen_joint_srcs_event_entry event delta n_log_nu log_rho xi tau sources zeta i e = INFINITY_c
+  /\ IZR (10 ^ 306) <= INFINITY_c < IZR (2 ^ 1023).
+Proof. exact joint_srcs_event_before_ref. Qed.
+Print Assumptions C08_joint_srcs_event_before_ref.
+
+(** hazard and survival of entry (i, e) = the formulas printed in docs/models.md with u = sum_s sources_{i,s} zeta_{s,e} *)
+Theorem C08_joint_srcs_documented : forall (event n_log_nu log_rho xi tau : R) (sources zeta : matrix) (i e : nat),
+  0 < event - tau ->
+  weibull_hazard (nu_tilde_src (exp (- n_log_nu)) (exp log_rho) xi (survival_shift sources zeta i e)) (exp log_rho) (event - tau)
+  = doc_hazard (exp (- n_log_nu)) (exp log_rho) xi tau (sum_products (nth i sources []) (map (fun r => nth e r 0) zeta)) event
+  /\ weibull_survival (nu_tilde_src (exp (- n_log_nu)) (exp log_rho) xi (survival_shift sources zeta i e)) (exp log_rho) (event - tau)
+  = doc_survival (exp (- n_log_nu)) (exp log_rho) xi tau (sum_products (nth i sources []) (map (fun r => nth e r 0) zeta)) event.
+Proof. exact joint_srcs_documented. Qed.
+Print Assumptions C08_joint_srcs_documented.
+
+(** the SAME graph traced with array symbols (the product executed on the symbols, nothing cut): 2 and 3 sources, one event *)
+Theorem C08_joint_src2_is_list : forall event delta n_log_nu log_rho xi tau s0 s1 z0 z1 : R,
+  gen_joint_src2_event_nll_ind event delta n_log_nu log_rho xi tau s0 s1 z0 z1
+  = gen_joint_srcs_event_entry event delta n_log_nu log_rho xi tau [[s0; s1]] [[z0]; [z1]] 0 0.
+Proof. exact joint_src2_is_list. Qed.
+Print Assumptions C08_joint_src2_is_list.
+
+Theorem C08_joint_src3_is_list : forall event delta n_log_nu log_rho xi tau s0 s1 s2 z0 z1 z2 : R,
+  gen_joint_src3_event_nll_ind event delta n_log_nu log_rho xi tau s0 s1 s2 z0 z1 z2
+  = gen_joint_srcs_event_entry event delta n_log_nu log_rho xi tau [[s0; s1; s2]] [[z0]; [z1]; [z2]] 0 0.
+Proof. exact joint_src3_is_list. Qed.
+Print Assumptions C08_joint_src3_is_list.
+
+(** two competing events, all per-event quantities traced as arrays: entry e reads event e's time / indicator / nu / rho and
+    COLUMN e of zeta - nothing of the other event; state["nll_attach_event_ind"] is the sum of the two entries *)
+Theorem C08_joint_src2e2_entrywise : forall ev0 ev1 d0 d1 n0 n1 r0 r1 xi tau s0 s1 z00 z01 z10 z11 : R,
+  gen_joint_src2e2_entry_0 ev0 ev1 d0 d1 n0 n1 r0 r1 xi tau s0 s1 z00 z01 z10 z11
+  = gen_joint_srcs_event_entry ev0 d0 n0 r0 xi tau [[s0; s1]] [[z00; z01]; [z10; z11]] 0 0
+  /\ gen_joint_src2e2_entry_1 ev0 ev1 d0 d1 n0 n1 r0 r1 xi tau s0 s1 z00 z01 z10 z11
+  = gen_joint_srcs_event_entry ev1 d1 n1 r1 xi tau [[s0; s1]] [[z00; z01]; [z10; z11]] 0 1
+  /\ gen_joint_src2e2_event_nll_ind ev0 ev1 d0 d1 n0 n1 r0 r1 xi tau s0 s1 z00 z01 z10 z11
+  = gen_joint_src2e2_entry_0 ev0 ev1 d0 d1 n0 n1 r0 r1 xi tau s0 s1 z00 z01 z10 z11
+    + gen_joint_src2e2_entry_1 ev0 ev1 d0 d1 n0 n1 r0 r1 xi tau s0 s1 z00 z01 z10 z11.
+Proof. exact joint_src2e2_entrywise. Qed.
+Print Assumptions C08_joint_src2e2_entrywise.
+
+Theorem C08_joint_src3e2_entrywise : forall ev0 ev1 d0 d1 n0 n1 r0 r1 xi tau s0 s1 s2 z00 z01 z10 z11 z20 z21 : R,
+  gen_joint_src3e2_entry_0 ev0 ev1 d0 d1 n0 n1 r0 r1 xi tau s0 s1 s2 z00 z01 z10 z11 z20 z21
+  = gen_joint_srcs_event_entry ev0 d0 n0 r0 xi tau [[s0; s1; s2]] [[z00; z01]; [z10; z11]; [z20; z21]] 0 0
+  /\ gen_joint_src3e2_entry_1 ev0 ev1 d0 d1 n0 n1 r0 r1 xi tau s0 s1 s2 z00 z01 z10 z11 z20 z21
+  = gen_joint_srcs_event_entry ev1 d1 n1 r1 xi tau [[s0; s1; s2]] [[z00; z01]; [z10; z11]; [z20; z21]] 0 1
+  /\ gen_joint_src3e2_event_nll_ind ev0 ev1 d0 d1 n0 n1 r0 r1 xi tau s0 s1 s2 z00 z01 z10 z11 z20 z21
+  = gen_joint_src3e2_entry_0 ev0 ev1 d0 d1 n0 n1 r0 r1 xi tau s0 s1 s2 z00 z01 z10 z11 z20 z21
+    + gen_joint_src3e2_entry_1 ev0 ev1 d0 d1 n0 n1 r0 r1 xi tau s0 s1 s2 z00 z01 z10 z11 z20 z21.
+Proof. exact joint_src3e2_entrywise. Qed.
+Print Assumptions C08_joint_src3e2_entrywise.
+
+(** ** Mixture-normal family with several clusters: the result is entry-wise.
+    [gen_mixtureK_nll_kJ]: entry (i, J) of MixtureNormalFamily._nll traced on K-cluster parameter arrays (x = value i);
+    [mixture_row f x locs scales] = [f x loc_0 scale_0; ...; f x loc_{K-1} scale_{K-1}]: entry k mentions cluster k only. *)
+Theorem C08_mixture2_entrywise : forall x l0 l1 s0 s1 : R,
+  [gen_mixture2_nll_k0 x l0 l1 s0 s1; gen_mixture2_nll_k1 x l0 l1 s0 s1] = mixture_row gen_normal_nll x [l0; l1] [s0; s1].
+Proof. exact mixture2_entrywise. Qed.
+Print Assumptions C08_mixture2_entrywise.
+
+Theorem C08_mixture3_entrywise : forall x l0 l1 l2 s0 s1 s2 : R,
+  [gen_mixture3_nll_k0 x l0 l1 l2 s0 s1 s2; gen_mixture3_nll_k1 x l0 l1 l2 s0 s1 s2; gen_mixture3_nll_k2 x l0 l1 l2 s0 s1 s2]
+  = mixture_row gen_normal_nll x [l0; l1; l2] [s0; s1; s2].
+Proof. exact mixture3_entrywise. Qed.
+Print Assumptions C08_mixture3_entrywise.
+
+(** the layout of the `sources` prior of the mixture model: value (i, s), mean (s, k), one common std: entry (i, s, k) reads value
+    (i, s) and the mean of (source s, cluster k) only *)
+Theorem C08_mixture_src2x2_entrywise : forall x0 x1 l00 l01 l10 l11 sc : R,
+  [gen_mixture_src2x2_nll_s0_k0 x0 x1 l00 l01 l10 l11 sc; gen_mixture_src2x2_nll_s0_k1 x0 x1 l00 l01 l10 l11 sc]
+  = mixture_row gen_normal_nll x0 [l00; l01] [sc; sc]
+  /\ [gen_mixture_src2x2_nll_s1_k0 x0 x1 l00 l01 l10 l11 sc; gen_mixture_src2x2_nll_s1_k1 x0 x1 l00 l01 l10 l11 sc]
+  = mixture_row gen_normal_nll x1 [l10; l11] [sc; sc].
+Proof. exact mixture_src2x2_entrywise. Qed.
+Print Assumptions C08_mixture_src2x2_entrywise.
+
+Theorem C08_mixture_src2x3_entrywise : forall x0 x1 l00 l01 l02 l10 l11 l12 sc : R,
+  [gen_mixture_src2x3_nll_s0_k0 x0 x1 l00 l01 l02 l10 l11 l12 sc; gen_mixture_src2x3_nll_s0_k1 x0 x1 l00 l01 l02 l10 l11 l12 sc;
+   gen_mixture_src2x3_nll_s0_k2 x0 x1 l00 l01 l02 l10 l11 l12 sc]
+  = mixture_row gen_normal_nll x0 [l00; l01; l02] [sc; sc; sc]
+  /\ [gen_mixture_src2x3_nll_s1_k0 x0 x1 l00 l01 l02 l10 l11 l12 sc; gen_mixture_src2x3_nll_s1_k1 x0 x1 l00 l01 l02 l10 l11 l12 sc;
+      gen_mixture_src2x3_nll_s1_k2 x0 x1 l00 l01 l02 l10 l11 l12 sc]
+  = mixture_row gen_normal_nll x1 [l10; l11; l12] [sc; sc; sc].
+Proof. exact mixture_src2x3_entrywise. Qed.
+Print Assumptions C08_mixture_src2x3_entrywise.
+
+(** any number of clusters: entry k of the row is the negative log-density of N(loc_k, scale_k^2) at x (up to the float32 constant) *)
+Theorem C08_mixture_row_entry : forall (x : R) (locs scales : list R) (k : nat),
+  length locs = length scales -> (k < length locs)%nat -> 0 < nth k scales 0 ->
+  nth k (mixture_row gen_normal_nll x locs scales) 0
+  = - ln (normal_pdf x (nth k locs 0) (nth k scales 0)) + (c32 - ln (sqrt (2 * PI))).
+Proof. exact mixture_row_entry. Qed.
+Print Assumptions C08_mixture_row_entry.
+
+(** ** The attachment of the mixture model: [gen_attach_mixture] is the public route of the observation model of a real mixture
+    model (the ordinary Gaussian family, evaluated on the individual's ONE trajectory state["model"]; the clusters enter the
+    likelihood through the priors of xi, tau, sources only - the C08_mixture theorems). *)
+Theorem C08_attach_mixture : forall y model noise_std : R,
+  0 < noise_std ->
+  gen_attach_mixture y model noise_std = - ln (normal_pdf y model noise_std) + (c32 - ln (sqrt (2 * PI))).
+Proof. exact attach_mixture. Qed.
+Print Assumptions C08_attach_mixture.
